@@ -16,7 +16,7 @@ from fiddle._src.experimental import auto_config
 from harness import common, l2, c02
 from harness.common import Failure, Result, Stream, g_list, g_pair, g_N, g_nat
 
-COQ_TARGETS = ["theories/C11Check.vo", "theories/AnchorsBuild.vo"]
+COQ_TARGETS = ["theories/C11Check.vo", "theories/C11Hyps.vo", "theories/AnchorsBuild.vo"]
 TRUSTED_BASE = ["the AST rewrite of auto_config is exercised through the real decorator on generated source "
                 "files; the Coq model covers straight-line programs (calls with positional / keyword arguments, "
                 "locals, list / tuple / dict literals, functools.partial); *splat, **splat, nested auto_config "
@@ -632,6 +632,10 @@ def run(tier: str, seed: int) -> Result:
                   "From Fiddle Require Import PySlice Sig ArgStore PyCall Heap Traverse Build Lang C11Check.",
                   "C11Check.case", "C11Check.check_case")
   res.streams.append(stream)
+  hyp_stream = Stream("c11_theorem_hypotheses",
+                      "From Fiddle Require Import PySlice Sig ArgStore PyCall Heap Traverse Build Lang C11Check C11Hyps.",
+                      "C11Check.case", "C11Hyps.hyps_c11", informational=True)
+  res.streams.append(hyp_stream)
   shutil.rmtree(MODDIR, ignore_errors=True)
   n = 250 if tier == "quick" else 6000
   try:
@@ -642,4 +646,5 @@ def run(tier: str, seed: int) -> Result:
     random_extended(rng, res, 200 if tier == "quick" else 4000)
   finally:
     shutil.rmtree(MODDIR, ignore_errors=True)
+  hyp_stream.cases, hyp_stream.meta = stream.cases, stream.meta
   return res
